@@ -33,10 +33,10 @@ type child struct {
 	stderr  *lockedBuf
 	exited  chan struct{}
 	starts  int
-	crashes []string // stderr of each crash
-	leaked  int      // transport goroutines known to have been left behind in this incarnation
-	leaks   int      // number of confirmed leaks (after two the long waits are dropped)
-	env     []string // extra environment (GOMAXPROCS=1 for the one-processor gate scenarios)
+	crashes []string      // stderr of each crash
+	leaked  int           // transport goroutines known to have been left behind in this incarnation
+	leaks   int           // number of confirmed leaks (after two the long waits are dropped)
+	env     []string      // extra environment (GOMAXPROCS=1 for the one-processor gate scenarios)
 	grace   time.Duration // how long to wait for the process to die after a stream (0 = 150 ms)
 	gorace  string        // further GORACE options
 }
